@@ -107,9 +107,8 @@ theorem heal_first (cfg : Cfg) (e0 : Ev) (he0 : e0 = .boot ∨ e0 = .manualStart
 /-- … and is kept by every event the environment can produce -/
 theorem heal_step (w : World) (e : Ev) (hen : enabled w.sess e = true) (h : Core.Heal (core w.sess)) :
     Core.Heal (core (step U w e).sess) :=
-  core_step_inv U Core.Heal (fun _ hc => Core.heal_frameOutcome hc)
-    (fun _ e' hc he => Core.heal_stepOutcome hc e' (by
-      cases e' <;> first | exact he | trivial)) w e hen h
+  core_step_inv U Core.Heal (fun _ hc => Core.heal_frameOutcome hc) w e hen
+    (fun hc he => Core.heal_stepOutcome hc e he) h
 
 theorem heal_run (evs : List Ev) : ∀ (w : World), Core.Heal (core w.sess) → EnabledRun U w evs →
     Core.Heal (core (run U w evs).sess) := by
